@@ -170,6 +170,9 @@ class Net:
         self.started = []
         self.posted = 0
         self.delivered = 0
+        if getattr(env, "symbolic", False) and hasattr(self.module, "math") and not hasattr(self.module.math, "_real"):
+            from pvc.models import MathShim
+            self.module.math = MathShim(self.module.math)
         if patch_random:
             from pvc.models import RandomModel
             import pydcop.infrastructure.computations as IC
